@@ -27,6 +27,9 @@ pub struct Violation {
     pub detail: String,
     pub check: String,
     pub scenario: Option<Scenario>,
+    /// index of the job in the plan, where the violation is a worker death (the replay file then carries that job)
+    #[serde(default)]
+    pub job_index: Option<usize>,
 }
 
 #[derive(Clone, Debug, Default, Serialize, Deserialize)]
